@@ -88,9 +88,9 @@ func init() {
 						}
 					}
 				}
-				// size classes beyond 1 GiB (untouched zero memory: cheap): conversions must not depend on
+				// size classes beyond 1, 2 and 4 GiB (untouched zero memory: cheap): conversions must not depend on
 				// any fixed maximum length
-				for _, bl := range []int{1 << 30, 1<<30 + 1, 1<<30 + 16} {
+				for _, bl := range []int{1 << 30, 1<<30 + 1, 1<<30 + 16, 1 << 31, 1<<31 + 3, 1 << 32, 1<<32 + 1, 1<<32 + 5} { // no 2^30, 2^31, 2^32 limits
 					g.Add("huge", Ls(I(op), I(bl), I(0), I(bl), I(bl), I(0), I(vr)))
 					g.Add("huge", Ls(I(op), I(bl), I(8), I(bl-8), I(bl-8), I(0), I(vr)))
 					g.Add("huge", Ls(I(op), I(bl), I(bl-5), I(5), I(5), I(0), I(vr)))
